@@ -24,8 +24,8 @@ def mix(z):
 
 
 DEFAULTS = dict(mode="b", n="-", s="-", T=1, min="-", max="-", skip="-", f=PS, p=1, oh="0,0,0,0", ic=0,
-                g=0, c=1, d=0, ja=0, js=0, grow=0, skew=0, off="0", x="", budget=60000)
-ORDER = ["mode", "n", "s", "T", "min", "max", "skip", "f", "p", "oh", "ic", "g", "c", "d", "ja", "js", "grow", "skew", "off", "x", "budget"]
+                g=0, c=1, d=0, ja=0, js=0, grow=0, skew=0, off="0", x="", al=0, alm=0, budget=60000)
+ORDER = ["mode", "n", "s", "T", "min", "max", "skip", "f", "p", "oh", "ic", "g", "c", "d", "ja", "js", "grow", "skew", "off", "x", "al", "alm", "budget"]
 
 
 def line_of(case):
@@ -39,7 +39,7 @@ def parse(line):
     for tok in line.split(" "):
         k, _, v = tok.partition("=")
         d[k] = v
-    for k in ("T", "f", "p", "ic", "g", "c", "d", "ja", "js", "grow", "skew", "budget"):
+    for k in ("T", "f", "p", "ic", "g", "c", "d", "ja", "js", "grow", "skew", "al", "alm", "budget"):
         d[k] = int(d[k])
     return d
 
@@ -239,6 +239,10 @@ def rand_case(rng, tuned=None, test=None, timed=True):
     if rng.random() < 0.4 and T > 1:
         c["skew"] = rng.choice([1, rng.randrange(1, 300)])
     c["off"] = rand_offsets(rng, T)
+    if rng.random() < 0.3:
+        # allocations inside the benchmarked call (AllocProfiler is the harness's global allocator)
+        c["al"] = rng.choice([1, 1, 2, 5])
+        c["alm"] = rng.choice([0, 2, 2, 3])
     if timed:
         k = rng.random()
         c["skip"] = "-" if k < 0.45 else ("0" if k < 0.55 else "1")
@@ -336,6 +340,7 @@ def histogram(cases):
         bump("min=" + ("unset" if d["min"] == "-" else "set"))
         bump("max=" + ("unset" if d["max"] == "-" else "set"))
         bump("counter=" + str(d["ic"]))
+        bump("allocs=" + ("none" if d["al"] == 0 else ("all" if d["alm"] == 0 else "some threads/rounds")))
     return h
 
 
